@@ -17,6 +17,10 @@ build() { # profile-flag target-subdir
 # integer-overflow checks on) and release (off). Regressions hidden behind debug_assert!, or
 # present only where the release profile lacks a check, show in exactly one of the two.
 DEV=1
+STD=1
+# VERIF_PROFILES=release (never set by the registered commands; used by tools/seeded.py when the
+# same patch has to be tried against all twenty checks quickly): only the release configuration
+if [ "${VERIF_PROFILES:-all}" = "release" ]; then DEV=0; STD=0; fi
 
 if [ "$MODE" = "--replay" ] && head -n 1 "$ARG" 2>/dev/null | grep -q "^apiprobe"; then
   exec "$VERIF_DIR/tools/api_probe.sh" "$PROP"
@@ -96,7 +100,7 @@ if [ "$PROP" = "C06" ]; then
   "$VERIF_DIR/tools/nostd_probe.sh"; rc=$?
   [ $rc -ne 0 ] && exit $rc
 fi
-if true; then
+if [ $STD -eq 1 ]; then
   # the crate's other configuration: feature `std` on (the default harness build has it off,
   # i.e. #![no_std] in effect). Every property is decided in both; for C06 in particular zero
   # allocator calls and in-container references must hold with and without std.
